@@ -32,13 +32,16 @@ def encodings_for(b, c, tier):
         try:
             vs = ber.variants(lambda ch: ber.encode_policy(b.mod, t, v, ch), 1 if tier == 'quick' else 2, cap=200)
             picked = 0
+            # the encoder-policy variants (whole chain / whole encoding indefinite) first: they reach the multi-terminator
+            # accounting of ber_check_tags, which single-TLV choices cannot
+            vs = sorted(vs, key=lambda ec: 0 if any(l in ('chain_indef', 'all_indef') for _, l, cc in ec[1].deviations()) else 1)
             for enc, ch in vs:
                 labs = [l for _, l, cc in ch.deviations()]
                 if not labs or 'mixed_chain' in ch.features or 'constructed_string_retagged' in ch.features:
                     continue
-                indef = any(l.startswith('len:') and cc == 2 for _, l, cc in ch.deviations())
+                indef = any((l.startswith('len:') and cc == 2) or l in ('chain_indef', 'all_indef') for _, l, cc in ch.deviations())
                 interesting = indef or 'constructed_string' in ch.features or 'unknown_ext' in ch.features or 'set_reordered' in ch.features
-                if interesting and (tier != 'quick' or picked < 3):
+                if interesting and (tier != 'quick' or picked < 4):
                     out.append(('ber', enc, v, fe | ch.features, '+'.join(labs)))
                     picked += 1
         except Exception:
